@@ -2,7 +2,7 @@
    evaluates property C19 on the implementation's own outputs.
 
    input   H <cap> <words> <oracles> <ops>        (see harness/cmd/distincttrace)
-   output  <len>:<count>:<p>;...  B=<sorted buffer> | ERR=<kind> *)
+   output  <len>:<count>:<p>:<words drawn>;...  B=<sorted buffer> | ERR=<kind> *)
 
 let fuel = nat_of_int 300
 
@@ -37,7 +37,8 @@ let err_name = function
   | M.NoWords -> "nowords" | M.BadWord -> "badword" | M.BadOracle -> "badoracle" | M.OutOfFuel -> "outoffuel"
 
 let show (obs, fin) =
-  let o = String.concat ";" (List.map (fun ((l, c), p) -> string_of_z l ^ ":" ^ string_of_z c ^ ":" ^ string_of_z p) obs) in
+  let o = String.concat ";" (List.map (fun (((l, c), p), nw) ->
+    string_of_z l ^ ":" ^ string_of_z c ^ ":" ^ string_of_z p ^ ":" ^ string_of_z nw) obs) in
   let o = if o = "" then "-" else o in
   match fin with
   | M.ROk (s, _) ->
@@ -58,16 +59,34 @@ let eval_with single inp =
 let eval inp = eval_with M.cvm_single_halving_pass inp
 
 (* ---- the property on the implementation's output, in native unsigned 64-bit arithmetic,
-   independent of the model *)
+   independent of the model.  Besides the clauses of the property text (exact regime, Len <= size,
+   Count = Len * 2^k, k not decreasing, Reset) the spec follows the algorithm's defining rules on
+   what was OBSERVED, with a reference buffer of its own:
+   - the threshold is MaxUint64 >> k, k = the number of halving passes the spec itself counted
+     since the last Reset (a pass is seen by the words it draws: every word an Add draws beyond its
+     coin word feeds a pass over the buffer) -- a threshold that moves by anything else than one
+     bit per pass (a biased estimate) fails here on the first pass;
+   - the coin: drawn exactly when the threshold is below MaxUint64, lost exactly when the word is
+     >= the threshold (unsigned); a value that loses its coin leaves the buffer, nothing else
+     changes; a value that wins is buffered;
+   - a pass runs exactly when the buffer has reached the size after the insertion, draws
+     ceil(n/64) words for n elements, and only removes elements (the survivors recorded by the
+     harness are a subset of the buffer);
+   - Len is the size of the reference buffer after every operation and the final dump equals it. *)
 let u64 s = Int64.of_string ("0u" ^ s)
 let lz64 (x : int64) = let rec go i = if i = 64 then 64 else if Int64.logand (Int64.shift_right_logical x (63 - i)) 1L = 1L then i else go (i + 1) in go 0
 let shl1 j = if j >= 64 then 0L else Int64.shift_left 1L j
+let shr x j = if j >= 64 then 0L else Int64.shift_right_logical x j
+let maxu = -1L
+
+let out_body out = match String.index_opt out ' ' with Some i -> String.sub out 0 i | None -> out
+let out_tail out = match String.index_opt out ' ' with Some i -> String.sub out (i + 1) (String.length out - i - 1) | None -> ""
 
 let parse_obs out =
-  let body = match String.index_opt out ' ' with Some i -> String.sub out 0 i | None -> out in
+  let body = out_body out in
   if body = "-" || body = "" then [] else
   List.map (fun o -> match String.split_on_char ':' o with
-    | [l; c; p] -> (int_of_string l, u64 c, u64 p)
+    | [l; c; p; nw] -> (int_of_string l, u64 c, u64 p, int_of_string nw)
     | _ -> failwith "bad observation") (String.split_on_char ';' body)
 
 (* alternating words appended for the repaired-variant run, so that its loop terminates *)
@@ -77,32 +96,91 @@ let known_f8 = ref 0
 let () = at_exit (fun () ->
   if !known_f8 > 3 then Printf.printf "NOTE known finding F8 (Len exceeds the size, reproduced by the pinned model, absent in the repaired model) on %d cases; only the first 3 are listed as SPECFAIL\n" !known_f8)
 
+module IS = Set.Make (Int)
+
 let spec prop inp out =
   match prop, words inp with
-  | "C19", ["H"; cap; ws; _orc; ops] ->
+  | "C19", ["H"; cap; ws; orc; ops] ->
     let cap = int_of_string cap in
     let ops = parse_ops ops in
     let obs = parse_obs out in
+    let script = Array.of_list (if ws = "." || ws = "" then [] else List.map u64 (String.split_on_char ',' ws)) in
+    let orc = parse_oracles orc in
+    let single = M.cvm_single_halving_pass in     (* the if/for form of the halving statement, from Gen *)
     let seen = Hashtbl.create 16 in
     let jprev = ref 0 in
-    let fail = ref None in
+    (* [fail]: the first failure other than the buffer bound; [lenfail]: the first Len > size *)
+    let fail = ref None and lenfail = ref None in
     let set i msg = if !fail = None then fail := Some (Printf.sprintf "op#%d: %s" i msg) in
     let len_exceeded = ref false in
     (* F8's trigger: since the last Reset some halving (threshold moved) left the buffer full *)
-    let still_full_after_pass = ref false and pprev = ref (-1L) in
+    let still_full_after_pass = ref false in
+    let pprev = ref maxu and kobs = ref 0 and pos = ref 0 and refbuf = ref IS.empty in
     let rec go i ops obs =
       match ops, obs with
       | _, [] -> ()
       | [], _ -> set i "more observations than operations"
-      | o :: ops', (l, c, p) :: obs' ->
+      | o :: ops', (l, c, p, nw) :: obs' ->
         (match o with
          | PReset ->
            Hashtbl.reset seen; jprev := 0; still_full_after_pass := false;
+           refbuf := IS.empty; kobs := 0;
            if l <> 0 || c <> 0L then set i "Reset leaves a non-empty counter";
-           if p <> (-1L) then set i "Reset does not restore the threshold"
-         | PAdd v -> Hashtbl.replace seen v ());
+           if p <> maxu then set i "Reset does not restore the threshold";
+           if nw <> 0 then set i "Reset draws random words"
+         | PAdd v ->
+           Hashtbl.replace seen v ();
+           if !pos + nw > Array.length script then set i "more words drawn than the script holds"
+           else begin
+             let drawn = !pprev <> maxu in
+             let lost =
+               if not drawn then false
+               else if nw < 1 then (set i "no coin word drawn although the threshold is below MaxUint64"; false)
+               else Int64.unsigned_compare script.(!pos) !pprev >= 0 in
+             if lost then begin
+               refbuf := IS.remove v !refbuf;
+               if nw <> 1 then set i (Printf.sprintf "a lost coin draws 1 word, %d were drawn" nw);
+               if p <> !pprev then set i "the threshold moved although the coin was lost";
+               if l <> IS.cardinal !refbuf then
+                 set i (Printf.sprintf "value %d lost its coin (word >= threshold) and must not be buffered afterwards: Len %d, reference buffer %d" v l (IS.cardinal !refbuf))
+             end else begin
+               refbuf := IS.add v !refbuf;
+               let n0 = IS.cardinal !refbuf in
+               let extra = nw - (if drawn then 1 else 0) in
+               if extra = 0 then begin
+                 if n0 >= cap then set i (Printf.sprintf "the buffer reached the size (%d >= %d) but no halving pass ran" n0 cap);
+                 if p <> !pprev then set i "the threshold moved without a halving pass";
+                 if l <> n0 then set i (Printf.sprintf "value %d won its coin and must be buffered: Len %d, reference buffer %d" v l n0)
+               end else begin
+                 if n0 < cap then set i (Printf.sprintf "a halving pass ran although the buffer (%d) is below the size %d" n0 cap);
+                 (* the number of passes: one in the pinned form; in the loop form every pass draws at
+                    least one word, and the threshold tells how many there were *)
+                 let j =
+                   if single then begin
+                     if extra <> (n0 + 63) / 64 then set i (Printf.sprintf "a pass over %d elements draws %d words, %d were drawn" n0 ((n0 + 63) / 64) extra);
+                     1
+                   end else begin
+                     let rec find j = if j > extra then (set i "no number of passes between 1 and the words drawn explains the threshold"; 1)
+                       else if shr !pprev j = p then j else find (j + 1) in find 1
+                   end in
+                 kobs := !kobs + j;
+                 if p <> shr !pprev j then
+                   set i (Printf.sprintf "%d halving pass(es) ran, the threshold must go from %Lu to %Lu (one bit per pass), it is %Lu" j !pprev (shr !pprev j) p);
+                 (match Hashtbl.find_opt orc i with
+                  | Some sv ->
+                    let sv = IS.of_list (List.map int_of_z sv) in
+                    if not (IS.subset sv !refbuf) then set i "a halving pass added elements to the buffer";
+                    refbuf := sv
+                  | None -> if p <> !pprev then set i "no survivor record for a pass (harness)");
+                 if l <> IS.cardinal !refbuf then set i (Printf.sprintf "Len %d but %d elements survived the pass" l (IS.cardinal !refbuf))
+               end
+             end;
+             pos := !pos + nw
+           end);
         let d = Hashtbl.length seen in
         let j = lz64 p in
+        if p <> shr maxu !kobs then
+          set i (Printf.sprintf "threshold %Lu is not MaxUint64 >> %d, %d being the number of halving passes since construction/Reset" p !kobs !kobs);
         if not (if j = 64 then p = 0L else Int64.shift_right_logical (-1L) j = p) then set i "threshold is not MaxUint64 >> j";
         if c <> Int64.mul (Int64.of_int l) (shl1 j) then set i (Printf.sprintf "Count %Lu is not Len %d times 2^%d" c l j);
         if j < !jprev then set i "the power of two decreased without Reset";
@@ -111,17 +189,29 @@ let spec prop inp out =
           set i (Printf.sprintf "exact regime: %d distinct values < size %d but Count=%Lu Len=%d" d cap c l);
         (* the property is stated for sizes >= 2; the bound is checked from size 1 on; NewCounter(0)
            or a negative size makes every successful Add halve and has no bound to keep *)
-        if !fail = None && cap >= 1 && l > cap then begin
+        if !lenfail = None && cap >= 1 && l > cap then begin
           len_exceeded := !still_full_after_pass;   (* set by an EARLIER operation only *)
-          set i (Printf.sprintf "Len %d exceeds the buffer size %d" l cap)
+          lenfail := Some (Printf.sprintf "op#%d: Len %d exceeds the buffer size %d" i l cap)
         end;
         if p <> !pprev && (match o with PAdd _ -> true | PReset -> false) && l >= cap then still_full_after_pass := true;
         pprev := p;
         if !fail = None then go (i + 1) ops' obs' in
     go 0 ops obs;
-    (match !fail with
-     | None -> None
-     | Some msg when !len_exceeded ->
+    let tail = out_tail out in
+    if !fail = None then begin
+      let n = String.length tail in
+      if n >= 9 && String.sub tail 0 9 = "ERR=panic" then set (List.length obs) ("the operation panicked: " ^ tail)
+      else if n >= 2 && String.sub tail 0 2 = "B=" && List.length obs = List.length ops then begin
+        let b = String.sub tail 2 (n - 2) in
+        let want = IS.elements !refbuf in
+        if b <> (if want = [] then "-" else str_ints want) then set (List.length obs) "the final buffer is not the reference buffer"
+      end
+    end;
+    (* a failure of any other clause is reported first: it is never a known finding *)
+    (match !fail, !lenfail with
+     | Some msg, _ -> Some msg
+     | None, None -> None
+     | None, Some msg when !len_exceeded ->
        (* known finding F8 only if (a) the code is the pinned single-pass variant and its model
           reproduces this very output, and (b) the repaired (loop) variant of the model keeps
           Len <= size on the same history *)
@@ -130,14 +220,14 @@ let spec prop inp out =
          let mops = List.map (function PReset -> M.OReset | PAdd v -> M.OAdd (z_of_int v, None)) ops in
          let (robs, fin) = run_model ~fuel:big_fuel false cap (parse_words ws @ ext_words) mops in
          (match fin with M.ROk _ -> true | M.RErr _ -> false)
-         && List.for_all (fun ((l, _), _) -> int_of_z l <= cap) robs in
+         && List.for_all (fun (((l, _), _), _) -> int_of_z l <= cap) robs in
        if pinned_ok && repaired_ok then begin
          (* run_main prints only the first 20 failures of a file: report the known finding a few
             times, count the rest, so that a NEW failure is never crowded out of the report *)
          incr known_f8;
          if !known_f8 <= 3 then Some (msg ^ " known=F8") else None
        end else Some msg
-     | Some msg -> Some msg)
+     | None, Some msg -> Some msg)
   | _ -> None
 
 let () = run_main ~eval ~spec
